@@ -130,6 +130,10 @@ def run_history(host, events):
             elif kind == "linkdown":
                 if not rig.conn.connected:
                     continue
+                if len(ev) > 1 and ev[1] == "deselect":
+                    # the peer deselects the session before it closes the connection: the link is lost all the same
+                    rig.conn.feed(gemrig.ctrl_frame(3, rig.next_system()))
+                    rig.rig.settle()
                 rig.conn.peer_close()
                 lit = "YLinkDown"
             elif kind == "s1f13_unsent":
@@ -237,7 +241,7 @@ def rand_events(rnd, n):
         if c < 0.16:
             evs.append(("linkup",))
         elif c < 0.24:
-            evs.append(("linkdown",))
+            evs.append(("linkdown", "deselect") if rnd.random() < 0.3 else ("linkdown",))
         elif c < 0.30:
             evs.append(("enable",))
         elif c < 0.36:
@@ -264,6 +268,8 @@ DIRECTED = [
     [("enable",), ("linkup",), ("s1f14", 1, True), ("other", True, True), ("s1f13",), ("delay",), ("s1f14", 0, False), ("delay",), ("t3",), ("t3",), ("delay",), ("s1f14", 0, True), ("other", True, True)],
     # a link lost while COMMUNICATING, then re-established: communication has to be established again
     [("enable",), ("linkup",), ("s1f14", 0, True), ("linkdown",), ("linkup",), ("other", True, True), ("s1f14", 0, True), ("other", True, True)],
+    # the peer deselects before it closes: communication ends with the link, the next link needs its own exchange
+    [("enable",), ("linkup",), ("s1f14", 0, True), ("other", True, True), ("linkdown", "deselect"), ("linkup",), ("other", True, True), ("s1f14", 0, True), ("other", True, True)],
     # link lost during an attempt
     [("enable",), ("linkup",), ("linkdown",), ("t3",), ("delay",), ("linkup",), ("t3",), ("delay",), ("s1f14", 0, True), ("other", True, True)],
     [("disable",), ("enable",), ("enable",), ("linkup",), ("s1f13",), ("s1f13",), ("s1f14", 5, True), ("disable",), ("disable",), ("linkup",)],
